@@ -55,14 +55,14 @@ def finalize(agg, tier):
 
 def text(rng: random.Random, n: int) -> str:
     kind = rng.choice(["ascii", "bmp", "astral", "mixed"])
-    alpha = {"ascii": "abcXYZ.-09", "bmp": "éßΩж中文ü", "astral": "😀𝄞𐍈", "mixed": "a.é中😀Z"}[kind]
+    alpha = {"ascii": "abcXYZ.-09", "bmp": "éßΩж中文ü", "astral": "😀𝄞𐍈", "mixed": "a.é中😀Z\x00"}[kind]
     return "".join(rng.choice(alpha) for _ in range(n))
 
 
 def gen_oid(rng):
     first = rng.choice([0, 1, 2])
     second = rng.randrange(40) if first < 2 else rng.choice([0, 16, 39, 40, 999, rng.randrange(5000)])
-    return ".".join(map(str, [first, second] + [rng.choice([0, 1, 127, 128, 840, 113549, 2**32]) for _ in range(rng.randrange(0, 9))]))
+    return ".".join(map(str, [first, second] + [rng.choice([0, 1, 127, 128, 840, 113549, 2**32, 2**35 - 1, 2**35, 2**64, rng.getrandbits(128)]) for _ in range(rng.randrange(0, 9))]))
 
 
 def gen_params(rng):
@@ -268,6 +268,16 @@ def run_vectors(spec, rec: Recorder):
     rec.count("windows_vectors_repacked")
     rec.count("layout_trailing")
     rec.case(("vector", "laps"), nontrivial=True, sample={"vector": "dpapi_ng_blob (LAPS, trailing layout)", "len": len(laps)})
+    # one value whose content needs four length octets (>= 2^24), both layouts
+    rng = common.rng_for(ID, spec)
+    for in_env in (True, False):
+        f, obj = gen_value(rng, False)
+        f["enc_content"] = rng.randbytes(4096) * 4097  # 16 781 312 bytes
+        f["in_envelope"] = in_env
+        obj.enc_content = f["enc_content"]
+        check_value(rec, f, obj, {"shard": "vectors", "case": "content >= 2^24", "in_envelope": in_env})
+        rec.case(("huge", in_env), nontrivial=True)
+        rec.count("four_length_octet_cases")
 
 
 def run_shard(spec, rec: Recorder):
